@@ -99,7 +99,8 @@ func (g *c15Gen) atom() *Node {
 		i := g.r.Intn(3)
 		return ConstRef([]string{"KT", "KI", "KN"}[i], []interface{}{true, int64(7), int64(-3)}[i])
 	case 6:
-		return Lit([]string{"a", "x y", ""}[g.r.Intn(3)])
+		// incl. strings that spell operators, keywords, delimiters and other tokens
+		return Lit([]string{"a", "x y", "", "+", "-", "*", "/", "%", "!", "==", "=", "!=", "<", ">=", "&&", "||", "&", "|", "(", ")", ",", "[", "]", "if", "and", "not", "true", "1", "-1", "b0", "; c", "f(x)"}[g.r.Intn(32)])
 	default:
 		return Lit(int64(g.r.Intn(10)))
 	}
